@@ -150,6 +150,26 @@ Refines == d.status = "run" => d.nodes = FlatGhost(ghost, 1)
 
 NoPanic == d.status = "run"
 
+(***************************************************************************)
+(* The tree a history stands for once every open node is closed (kind "x") *)
+(* and the root is closed with close_root: what a user of the public       *)
+(* children()/get() API sees.  Leaves are <<"t", token, index>>.           *)
+(***************************************************************************)
+RECURSIVE PublicItems(_, _)
+PublicItem(it) == IF it[1] = "t" THEN <<"t", it[2], it[3]>> ELSE <<"r", it[2], PublicItems(it[3], 1)>>
+PublicItems(its, i) == IF i > Len(its) THEN <<>> ELSE <<PublicItem(its[i])>> \o PublicItems(its, i + 1)
+
+RECURSIVE CloseAll(_)
+CloseAll(g) ==
+  IF Len(g) = 1 THEN g[1].items
+  ELSE LET f == g[Len(g)]
+           k == TrailingSkips(f.items)
+           keep == SubSeq(f.items, 1, Len(f.items) - k)
+           hoist == SubSeq(f.items, Len(f.items) - k + 1, Len(f.items))
+           below == SubSeq(g, 1, Len(g) - 1)
+       IN CloseAll([below EXCEPT ![Len(below)].items = (@ \o << <<"r", "x", keep>> >>) \o hoist])
+CompletedTree == <<"r", "s", PublicItems(CloseAll(ghost), 1)>>
+
 RECURSIVE LeafIdx(_, _, _)
 LeafIdx(nodes, k, next) ==
   IF k > Len(nodes) THEN next
